@@ -252,6 +252,33 @@ func registerExternals() {
 		p := fr.i.p
 		return lower(p.store.Le(wideSum(p.store, args[0]), wideSum(p.store, args[1])), nil)
 	}
+	lin := func(st *Store, cs, xs value) *Term {
+		acc := st.Wide(big.NewInt(0))
+		c := cs.([]value)
+		x := xs.([]value)
+		for i := range c {
+			ct := toTerm(st, c[i])
+			xt := st.Conv(toTerm(st, x[i]), 0, false)
+			var prod *Term
+			if ct.isConst() {
+				prod = st.mk(&Term{op: OMul, kind: KWide, a: []*Term{xt, st.Wide(new(big.Int).SetUint64(ct.c))}})
+			} else if xt.isConst() {
+				prod = st.mk(&Term{op: OMul, kind: KWide, a: []*Term{st.Conv(ct, 0, false), xt}})
+			} else {
+				prod = st.mk(&Term{op: OMul, kind: KWide, a: []*Term{st.Conv(ct, 0, false), xt}})
+			}
+			acc = st.Bin(OAdd, acc, prod)
+		}
+		return acc
+	}
+	ext[S+"LinLe"] = func(fr *frame, args []value) value {
+		st := fr.i.p.store
+		return lower(st.Le(lin(st, args[0], args[1]), lin(st, args[2], args[3])), nil)
+	}
+	ext[S+"LinEq"] = func(fr *frame, args []value) value {
+		st := fr.i.p.store
+		return lower(st.Eq(lin(st, args[0], args[1]), lin(st, args[2], args[3])), nil)
+	}
 	// Ite(c, a, b uint64) uint64
 	ext[S+"IteU64"] = func(fr *frame, args []value) value {
 		return symIte(args[0], args[1], args[2])
